@@ -157,6 +157,40 @@ pub mod verif {
             }
         }
     }
+
+    /// Fault injection plan: (point name, worker index or usize::MAX for any, panic instead of
+    /// return, number of matching calls to let pass first)
+    static FAULT: RwLock<Option<(String, usize, bool, usize)>> = RwLock::new(None);
+    static FAULT_CALLS: std::sync::atomic::AtomicUsize = std::sync::atomic::AtomicUsize::new(0);
+
+    pub fn set_fault(name: &str, index: usize, panic: bool, after: usize) {
+        *FAULT.write().unwrap() = Some((name.to_string(), index, panic, after));
+    }
+
+    /// Fault point inside a worker: panics, or returns true (the caller then returns), exactly
+    /// once, when the plan names this point and enough matching calls have passed.
+    pub fn fault(name: &str, index: usize) -> bool {
+        let plan = match FAULT.read() {
+            Ok(guard) => guard.clone(),
+            Err(_) => None,
+        };
+
+        if let Some((plan_name, plan_index, panic, after)) = plan {
+            if plan_name == name && (plan_index == usize::MAX || plan_index == index) {
+                let n = FAULT_CALLS.fetch_add(1, std::sync::atomic::Ordering::SeqCst);
+
+                if n == after {
+                    if panic {
+                        panic!("injected fault at {}", name);
+                    }
+
+                    return true;
+                }
+            }
+        }
+
+        false
+    }
 }
 
 #[cfg(feature = "prometheus")]
